@@ -4,6 +4,10 @@ def replay_pack(tags, lengths, encoding, values=None, cfg=None):
     from cardutil.config import config
     cfgs = None
     car = [48, 62, 123, 124, 125]
+    if cfg == 'unordered-keys':
+        from . import packaged
+        base = packaged.bit_config()
+        cfgs = {k: dict(base[k]) for k in sorted(base)}
     if cfg in ('de62-plain', 'reconfigured'):
         from . import packaged
         cfgs = packaged.bit_config_copy()
